@@ -156,7 +156,7 @@ def redeliv_term(c, atoi, canon):
     ids = sorted(ids)
     at = C.coq_list(['(%s, %s)' % (C.coq_N(i), C.coq_Z(atoi[i])) for i in ids if i in atoi])
     it = C.coq_list(['(%s, %s)' % (C.coq_Z(atoi[i]), C.coq_N(i)) for i in ids if i in canon])
-    comp = '(KForwarder %s)' % C.coq_bool(c['ackbad']) if c['comp'] == 'forwarder' else '(KRequeuer (GConst %s) (0)%%Z)' % C.coq_N(c['target'])
+    comp = {'forwarder': '(KForwarder %s)' % C.coq_bool(c['ackbad']), 'requeuer': '(KRequeuer (GConst %s) (0)%%Z)' % C.coq_N(c['target']), 'fanin': '(KFanIn %s)' % C.coq_N(c['target'])}[c['comp']]
     obs = []
     for a in split_attempts(c['trace']):
         st = [e for e in a if e[0] == 'settle']
